@@ -234,6 +234,11 @@ def run_property(prop, tier, seed, note, with_tables=False):
     p = pipeline(tier, seed)
     v = validate(prop, p, rep)
     cv = validate_chain(prop, p, rep) if prop in ("C07", "C08", "C09") else None
+    bridged = None
+    if prop == "C08":
+        # a built sub-message on its way out through a bridged interface handler (the bridge corpus of C11, judged for C08)
+        from . import c11
+        bridged = c11.bridge(prop, tier, seed, rep)
     ntab = 0
     tv = None
     if with_tables:
@@ -257,6 +262,7 @@ def run_property(prop, tier, seed, note, with_tables=False):
            "chain_model_states": p["chain_model"]["distinct"],
            "chain_transactions": sum(len(pr.get("chain", [])) for pr in p["progs"] if pr["id"] not in p["failed"]),
            "chain_trace_events": cv["events"] if cv else 0,
+           "bridged_responses_judged": bridged["traces_validated_against_impl"] if bridged else 0,
            "samples": evs, "exhaustive": False, "explanation": note}
     common.write_evidence(prop, tier, seed, cov, time.time() - t0, len(rep.violations))
     return rc
